@@ -1003,6 +1003,36 @@ Proof. intro H. unfold wexit. rewrite Z.div_mul by lia. apply Z.mod_small. exact
 Lemma wexit_signal sg : 0 <= sg < 256 -> wexit sg = 0.
 Proof. intro H. unfold wexit. rewrite Z.div_small by lia. reflexivity. Qed.
 
+(* round 5: only a child that exited has an exit code (ProcSpec.wifexited / join_code_specified) *)
+Lemma wifexited_code c : wifexited (c * 256) = true.
+Proof.
+  unfold wifexited. change 127 with (Z.ones 7). rewrite Z.land_ones by lia.
+  replace (c * 256) with (c * 2 * 2 ^ 7) by lia. rewrite Z_mod_mult. reflexivity.
+Qed.
+
+Lemma wifexited_signal sg : 0 < sg < 128 -> wifexited sg = false.
+Proof.
+  intro H. unfold wifexited. change 127 with (Z.ones 7). rewrite Z.land_ones by lia.
+  rewrite Z.mod_small by lia. apply Z.eqb_neq. lia.
+Qed.
+
+Lemma join_exit_code_exited lost s w c : PInv lost s w -> p_pid s <> 0 -> 0 <= c < 256 ->
+  join_code_specified (PJoin (Some (c * 256))) = true /\
+  fst (fst (pstep (PJoin (Some (c * 256))) s w)) = RJoin c.
+Proof.
+  intros HI Hp Hc. split; [apply wifexited_code|].
+  destruct (join_exit_code lost s w (c * 256) HI Hp) as [H _]. rewrite H, (wexit_code c Hc). reflexivity.
+Qed.
+
+Lemma join_signalled_unspecified sg core : 0 < sg < 128 -> (core = 0 \/ core = 128) ->
+  join_code_specified (PJoin (Some (sg + core))) = false.
+Proof.
+  intros H Hc. cbn [join_code_specified]. unfold wifexited. change 127 with (Z.ones 7). rewrite Z.land_ones by lia.
+  apply Z.eqb_neq. destruct Hc; subst core.
+  - rewrite Z.add_0_r, Z.mod_small by lia. lia.
+  - replace (sg + 128) with (sg + 1 * 2 ^ 7) by lia. rewrite Z_mod_plus_full, Z.mod_small by lia. lia.
+Qed.
+
 (* operations on an object without a process: refused, nothing changes, no system call is made *)
 Lemma idle_refuses lost s w o : PInv lost s w -> p_pid s = 0 ->
   match o with PJoin _ | PKill _ | PRead2 _ _ _ => True | _ => False end ->
